@@ -104,8 +104,17 @@ class Popen(AgentExecutingComponent):
         self._log.debug('cancel %s', tid)
         self._prof.prof('task_run_cancel_start', uid=tid)
 
-        launcher = self._rm.get_launcher(task['launcher_name'])
-        launcher.cancel_task(task, proc.pid)
+        # we own the task now: whatever happens to the kill command, the task
+        # must be handed over and its slots must be freed
+        try:
+            launcher = self._rm.get_launcher(task['launcher_name'])
+            launcher.cancel_task(task, proc.pid)
+        except Exception:
+            self._log.exception('cancel command failed for %s', tid)
+            try:
+                os.killpg(proc.pid, signal.SIGKILL)
+            except OSError:
+                pass
 
         proc.wait()  # make sure proc is collected
 
@@ -143,6 +152,24 @@ class Popen(AgentExecutingComponent):
                 self._log.exception("error running Task")
                 task['exception']        = repr(e)
                 task['exception_detail'] = '\n'.join(ru.get_exception_trace())
+
+                # the error may have occurred after the task process got
+                # spawned: take the task from the watcher (if the watcher or
+                # a cancel request own it by now, they hand it over and free
+                # its slots), make sure the process is gone, and do not let
+                # the process handle travel with the task (not serializable)
+                with self._check_lock:
+                    if task['uid'] not in self._tasks:
+                        continue
+                    del self._tasks[task['uid']]
+
+                proc = task.pop('proc', None)
+                if proc:
+                    try:
+                        os.killpg(proc.pid, signal.SIGKILL)
+                    except OSError:
+                        pass
+                    proc.wait()
 
                 # can't rely on the executor base to free the task resources
                 self._prof.prof('unschedule_start', uid=task['uid'])
